@@ -11,6 +11,8 @@ ASSUMPTIONS = ["file data dumped by `p` is not archive-derived *text*: members c
                "header records are taken as the library returns them; list output is additionally compared with ListOutput.tla",
                "TLC/SANY/CommunityModules trusted"]
 FIELDS = ["name", "path", "target", "method_first", "method_later", "user", "group", "longpath", "longname", "linkpath", "longlinkpath"]
+# the hostile byte at the far end of texts longer than the buffers a formatting routine might use (128 .. 4096 bytes)
+TAIL_FIELDS = ["tailpath1030", "tailpath4100", "tailname1030", "tailtarget1030", "tailpath260", "tailname520"]
 MODES = ["l", "lv", "v", "vv", "t", "x", "xn", "xq0", "xq1", "xq2", "p", "xx_n", "xx_s", "xx_a", "xx_y", "xx_z", "xxn", "xxi", "x_notdir"]
 # xx_*: a second extraction over the result of a first one, without f / q: every file is asked about on standard error, the answers
 # being n, s (skip all), a (all), y, or something unrecognised first; xxn: dry run over existing files; xxi: the same with option i
@@ -43,6 +45,16 @@ def hostile_archive(field, byte, later):
     if field in ("linkpath", "longlinkpath"):
         exts = [arc.x_name(b"lnk|tgt"), (arc.X_PATH, b"d" + b + b"e" * (1 if field == "linkpath" else 300) + b"\xff"), arc.x_perm(0o120777)]
         kw.update(method=b"-lhd-", payload=b"")
+    if field.startswith("tail"):
+        n = int(field.lstrip("tailpathnmrge"))
+        if field.startswith("tailpath"):
+            comps = [b"e" * 200] * (n // 201)
+            exts.append((arc.X_PATH, b"\xff".join(comps + [b"d" * (n - 201 * len(comps)) + b + b"e"]) + b"\xff"))
+        elif field.startswith("tailname"):
+            exts[0] = arc.x_name(b"n" * n + b + b"m")
+        else:
+            exts = [arc.x_name(b"lnk|" + b"t" * n + b + b"u"), arc.x_perm(0o120777)]
+            kw.update(method=b"-lhd-", payload=b"")
     if field == "method_first":
         method = b"-lh" + b + b"-"            # bytes 3 and 4 are fixed by the signature scan
         kw.update(method=method)
@@ -63,6 +75,7 @@ def run(tier, seed, ev):
     if tier == "thorough":
         classes = list(range(1, 256))
     configs = [(f, b, later) for f in FIELDS for b in classes for later in (False, True)]
+    configs += [(f, b, False) for f in TAIL_FIELDS for b in classes]
     archives = {}
     for (f, b, later) in configs:
         a = os.path.join(sc, "h_%s_%02x_%d.lzh" % (f, b, later))
@@ -93,7 +106,7 @@ def run(tier, seed, ev):
                     # a regular file where the member's directory would have to be (error messages name the path)
                     xd = os.path.join(sc, "x%d_%d" % (k, n))
                     os.makedirs(xd)
-                    if cfg[0] in ("path", "linkpath"):
+                    if cfg[0] in ("path", "linkpath") and cfg[1] not in (0, 0x2f):
                         open(os.path.join(xd.encode(), b"d" + bytes([cfg[1]]) + b"e"), "wb").write(b"in the way")
                     p = subprocess.run([lha, "xw=" + xd, a], capture_output=True, env=V.run_env(), stdin=subprocess.DEVNULL, timeout=120)
                     e = {"e": "Out", "mode": mode, "cfg": [cfg[0], cfg[1], cfg[2]], "out": list(p.stdout + p.stderr)}
